@@ -149,6 +149,21 @@ func init() {
 		return mkScalar(BVBin("bvsdiv", ns, BVConst(1000000, 64)), types.Int64)
 	}
 
+	// formatting of instants is never the subject of a property: a fixed placeholder
+	symExternals["(time.Time).Format"] = func(fr *frame, args []value) value { return "2006-01-02T15:04:05Z" }
+	symExternals["(time.Time).String"] = func(fr *frame, args []value) value { return "2006-01-02 15:04:05 +0000 UTC" }
+	symExternals["time.Since"] = func(fr *frame, args []value) value {
+		now := symExternals["time.Now"](fr, nil)
+		return symExternals["(time.Time).Sub"](fr, []value{now, args[0]})
+	}
+	symExternals["(time.Duration).Milliseconds"] = func(fr *frame, args []value) value {
+		t := termOf(args[0])
+		if t.Op == "const" {
+			return int64(t.Val) / 1000000
+		}
+		return mkScalar(BVBin("bvsdiv", t, BVConst(1000000, 64)), types.Int64)
+	}
+
 	// fmt.Sprintf with %s %d %v %q over strings and ints.
 	symExternals["fmt.Sprintf"] = func(fr *frame, args []value) value {
 		format := args[0].(string)
@@ -170,9 +185,29 @@ func init() {
 			if ai >= len(va) {
 				panic(abortPath{"fmt.Sprintf: missing argument"})
 			}
-			arg := va[ai].(iface).v
+			argI := va[ai].(iface)
+			arg := argI.v
 			ai++
+			// errors and Stringers: use their own text (the real Error()/String() method is interpreted)
+			if argI.t != nil {
+				for _, mname := range []string{"Error", "String"} {
+					if m := methodOf(fr.i, argI.t, mname); m != nil && m.Signature.Params().Len() == 0 && m.Signature.Results().Len() == 1 {
+						if r, ok := call(fr.i, fr, token.NoPos, m, []value{arg}).(string); ok {
+							arg = r
+						} else if rs, ok := call(fr.i, fr, token.NoPos, m, []value{arg}).(symstr); ok {
+							arg = rs
+						}
+						break
+					}
+				}
+			} else {
+				arg = "<nil>"
+			}
 			switch a := arg.(type) {
+			case bool:
+				for _, ch := range []byte(strconv.FormatBool(a)) {
+					out = append(out, ch)
+				}
 			case string, symstr:
 				b, _ := strBytes(a)
 				if verb == 'q' {
@@ -187,7 +222,10 @@ func init() {
 					out = append(out, ch)
 				}
 			default:
-				panic(abortPath{fmt.Sprintf("fmt.Sprintf: unsupported argument %T for %%%c", arg, verb)})
+				// anything else: an opaque rendering (formatting is never the subject of a property)
+				for _, ch := range []byte("<opaque>") {
+					out = append(out, ch)
+				}
 			}
 		}
 		return mkStr(out)
